@@ -145,7 +145,43 @@ type state struct {
 	eps    []string
 	res    []*regexp.Regexp
 	subset bool
+	extra  []regVariant // other requests the REAL registration function produced for the same flows
 	rl     *reloadWorld
+}
+
+// regVariant: one registration request as the proxy would hold it
+type regVariant struct {
+	ma     bool
+	res    []*regexp.Regexp
+	subset bool
+}
+
+func newVariant(req *config.HAProxyEndpointsRequest) regVariant {
+	v := regVariant{ma: req.ManageAll, subset: true}
+	for _, e := range req.ManagedEndpoints {
+		if !inSubset(e.Endpoint) {
+			v.subset = false
+		}
+		if re, err := regexp.Compile(e.Endpoint); err == nil {
+			v.res = append(v.res, re)
+		}
+	}
+	return v
+}
+
+func (v regVariant) managed(subj string) string {
+	if v.ma {
+		return "1"
+	}
+	if !v.subset {
+		return "?"
+	}
+	for _, re := range v.res {
+		if re.MatchString(subj) {
+			return "1"
+		}
+	}
+	return "0"
 }
 
 func fmtNames(n []string) string {
@@ -210,20 +246,19 @@ func itoa(n int) string {
 	return string(b)
 }
 
+// managed: under EVERY registration request seen for this configuration (0 beats ? beats 1)
 func (st *state) managed(m, u string) string {
-	if st.ma {
-		return "1"
-	}
-	if !st.subset {
-		return "?"
-	}
 	subj := m + ":::" + u
-	for _, re := range st.res {
-		if re.MatchString(subj) {
-			return "1"
+	res := regVariant{ma: st.ma, res: st.res, subset: st.subset}.managed(subj)
+	for _, v := range st.extra {
+		switch r := v.managed(subj); {
+		case r == "0":
+			res = "0"
+		case r == "?" && res == "1":
+			res = "?"
 		}
 	}
-	return "0"
+	return res
 }
 
 func exec(c proto.Case, o *proto.Out) []string {
@@ -373,8 +408,24 @@ func exec(c proto.Case, o *proto.Out) []string {
 				filters := supportedFilters(st.flows)
 				req := flowsEndpointsRequest(filters)
 				outs[i] = st.setRegistered(req)
-				if note := crossCheckEngine(c.Ops, st.decls, req, o); note != "" {
-					outs[i] += " " + note
+				st.extra = nil
+				if real := realFlowsRequests(c.Ops, st.decls, o); real != nil {
+					differs := 0
+					for _, rq := range real {
+						if endpointsKey(rq) != endpointsKey(req) {
+							st.extra = append(st.extra, newVariant(rq))
+							differs++
+							if differs == 1 {
+								outs[i] += " real-differs:" + strings.ReplaceAll((&state{}).setRegistered(rq), " ", ",")
+							}
+						}
+					}
+					if differs > 0 {
+						outs[i] += " variants=" + itoa(len(real))
+						o.Count("L3-realbuild-DIFFERS")
+					} else {
+						o.Count("L3-realbuild-same")
+					}
 				}
 				o.Count("L3-build-flows")
 			case st.mode == 2:
